@@ -240,7 +240,7 @@ PROPS = {
         "trusted": ["as C01; the Deserialize implementations of the corpus types (serde std / derive, serde_bytes, candid's own) are modelled in lean/CandidModel/Native.lean as which Deserializer method each calls with which visitor; the RTy descriptions of the corpus types are hand-written (harness/src/corpus.rs) and checked against T::ty() by `agree` on every mirror request",
                     "the cost of skipping a reference value on the native path is not compared when the Rust type has named definitions (the shared skipping function charges the merged environment's size)"],
         "assumptions": ["host-limit predicates per corpus type are hand-written in harness/src/corpus.rs"],
-        "partial": ["native = untyped as ONE theorem is not proved (the native mirror and the untyped mirror consume their depth budgets differently); it is established per message by the correspondence (native vs specification, native vs untyped, native vs native mirror). Proved about the native mirror: bulk primitive reader sound and complete against the element-wise path, big-number and text-key shortcuts sound and taken only at their literal type pairs, bounded vectors accept exactly within limits, no visitor out of step with its expected type and no skip under a set flag (under agree, which the driver evaluates on every request)"],
+        "partial": ["native = untyped IS a theorem on the mirrors (native_decoding_agrees_with_untyped_decoding: every wire type, every input, every pair of depth budgets, unless a run stops at a host limit) for Rust types without tuples, arrays, bounded vectors and 128-bit integers - options, vectors through all paths, Vec<u8>, ByteBuf, maps with their shortcuts, derived structs and enums, named recursive types are covered; for the excluded types (tuples: known finding about positional pairing; the others: host limits) and for de.rs against its mirrors the agreement is established per message by the correspondence. Also proved about the native mirror: bulk primitive reader sound and complete against the element-wise path, shortcuts taken only at their literal type pairs, bounded vectors accept exactly within limits, no visitor out of step with its expected type (under agree, evaluated by the driver on every request)"],
     },
     "C11": {
         "profiles": ["debug"],
